@@ -605,10 +605,20 @@ def check_costs(tree, net):
     fresh = ctg.ContractionTree.from_path(inputs, output, size_dict, path=path)
     for ix, pj in chain:
         fresh.remove_ind_(ix, project=pj)
+    # every figure that is reported from a RUNNING total is read first, one by one and in an order that
+    # varies with the state (so that all orders occur), before anything (contract_stats) recomputes the
+    # totals that are not tracked: a stale tracked total must not be masked by a recomputation of another
+    singles = ["max_size", "contraction_width", "total_flops", "total_write", "peak_size"]
+    rot = (len(path) + len(chain) + int(tree._track_flops) + 2 * int(tree._track_write)
+           + 4 * int(tree._track_size)) % len(singles)
+    for what in singles[rot:] + singles[:rot]:
+        x, y = getattr(tree, what)(), getattr(fresh, what)()
+        if x != y:
+            return "%s %r differs from rebuild %r" % (what, x, y)
     a, b = tree.contract_stats(), fresh.contract_stats()
     if a != b:
         return "contract_stats %r differ from rebuild %r" % (a, b)
-    for what in ("total_flops", "total_write", "max_size", "peak_size"):
+    for what in ("total_flops", "total_write", "max_size", "peak_size", "contraction_width", "combo_cost"):
         if getattr(tree, what)() != getattr(fresh, what)():
             return "%s %r differs from rebuild %r" % (what, getattr(tree, what)(), getattr(fresh, what)())
     if tree.multiplicity != fresh.multiplicity or tree.sliced_inputs != fresh.sliced_inputs:
@@ -735,6 +745,12 @@ def run_history(hist, mode, with_model=True, check_every=True):
         tr.active = True
         for si, op in enumerate(hist["ops"]):
             tr.active = False
+            nflags = int(tree._track_flops) + int(tree._track_write) + int(tree._track_size)
+            feat("track_flops%d_write%d_size%d" % (int(tree._track_flops), int(tree._track_write), int(tree._track_size)))
+            if 0 < nflags < 3 and op["kind"] in ("reconf", "reconf_forest", "anneal", "temper", "slice", "slice_reconf",
+                                                  "slice_reconf_forest", "remove_ind", "restore_ind", "unslice_rand",
+                                                  "unslice_all"):
+                feat("transformation_in_partially_tracked_state")
             pre_tid = tr.tids[id(tree)]
             pre = observe(tree, tr)
             tr.take()
@@ -908,7 +924,7 @@ def worker(args):
     return res
 
 
-def make_history(rng, mode, quick=True):
+def make_history(rng, mode, quick=True, partial=None):
     while True:
         inputs, output, size_dict = gen.rand_net(rng, nmin=3, nmax=6 if quick else 7, max_ix=6, max_rank=3)
         if any(len(t) for t in inputs):
@@ -934,9 +950,35 @@ def make_history(rng, mode, quick=True):
         if rng.random() < 0.5:
             ops.append({"kind": "restore_ind", "which": rng.randrange(8), "inplace": True})
             ops.append(con())
+    aseed, probe = rng.randrange(1000), rng.choice(["direct", "copy"])
+    if partial is not None:
+        # PARTIAL TRACKING: only a subset of the running totals is switched on before (and between) the
+        # transformations; the probe works on copies so that the tree itself stays partially tracked
+        prng = random.Random(aseed * 7919 + partial)
+        ops = [o for o in ops if not (o["kind"] == "stats" and o["what"] in ("contract_stats", "force", "combo_cost"))]
+        out = partial_queries(prng, partial)
+        for o in ops:
+            out.append(o)
+            if prng.random() < 0.35:
+                out.extend(partial_queries(prng, prng.randrange(1, 7)))
+        ops = out
+        probe = "copy"
     return {"inputs": [list(t) for t in inputs], "output": list(output), "size_dict": size_dict,
-            "path": [list(p) for p in path], "ops": ops, "aseed": rng.randrange(1000),
-            "probe": rng.choice(["direct", "copy"])}
+            "path": [list(p) for p in path], "ops": ops, "aseed": aseed, "probe": probe}
+
+
+def partial_queries(rng, combo):
+    """stats queries that switch on exactly the flags of `combo` (bit 0 _track_flops, bit 1 _track_write,
+    bit 2 _track_size), each through a randomly chosen public figure, in random order"""
+    qs = []
+    if combo & 1:
+        qs.append("total_flops")
+    if combo & 2:
+        qs.append("total_write")
+    if combo & 4:
+        qs.append(rng.choice(["max_size", "contraction_width"]))
+    rng.shuffle(qs)
+    return [{"kind": "stats", "what": w} for w in qs]
 
 
 def load_corpus(prop):
@@ -959,8 +1001,11 @@ def run_property(ctx, mode):
     nh = ctx.n(160, 4000)
     hists = load_corpus(mode)
     ncorpus = len(hists)
-    for _ in range(nh):
-        hists.append(make_history(rng, mode, ctx.quick))
+    for k in range(nh):
+        # C04: 3 of 8 random histories start (and continue) in a PARTIALLY tracked state; the six mixed
+        # flag combinations are imposed in turn (generator floor), the rest is left to the random ops
+        partial = (1 + (k // 8) % 6) if (mode == "C04" and k % 8 in (1, 4, 6)) else None
+        hists.append(make_history(rng, mode, ctx.quick, partial=partial))
     tlimit = 90
     t0 = time.time()
     with multiprocessing.Pool(min(16, os.cpu_count() or 4)) as pool:
@@ -1065,6 +1110,9 @@ def run_property(ctx, mode):
         "simulated_anneal (target_size/None, basic/reslice/drift), parallel_temper(parallel=False), remove_ind "
         "slice|project, restore_ind, unslice_rand/all, slice, slice_and_reconfigure(_forest), copy, stats queries, "
         "sort_contraction_indices, reset_contraction_indices, contract, get_path, print_contractions}, inplace and "
+        "not; C04: 3 of 8 histories are PARTIALLY TRACKED (only a subset of total_flops / total_write / max_size|"
+        "contraction_width queried before and between the transformations, the six mixed flag combinations in turn, "
+        "probe on copies; features track_flops?_write?_size? count the combination at the start of every operation) and "
         "not; corpus histories first; non-trivial = at least two executed operations; distinct by (network, path, ops)")
     ctx.assumptions = [
         "correspondence is executed, not proved: the primitive trace of every high-level call is replayed by the "
